@@ -14,14 +14,19 @@ CLAIMED = {
     ref='DESIGN.md §7 C01'),
  'C02': dict(level='other', engine='tables+absint',
     technique='constant-table comparison against a generator; path-fact rules over the abstract states of the Message reader (DF id as a term of the first frame byte, provenance marker on the checksum)',
-    text='Decides: all 256 CRC table entries equal the remainder of i*x^24 by the Mode S generator; a frame goes on to DF decoding only in states that exclude DF 17 or have checksum 0, and the CRC error is raised only with id 17 and checksum >= 1; the checksum is computed over all 7/14 frame bytes in order and is the value stored as Message.crc and as the address/parity field of DF 0, 4, 5, 16, 20, 21; index obligations of modes_checksum. Does NOT decide that the byte loop computes polynomial division, nor the 1-2 bit / 24-bit burst clause (algebra over all frames).',
+    text='Decides: all 256 CRC table entries equal the remainder of i*x^24 by the Mode S generator; a frame goes on to DF decoding only in states that exclude DF 17 or have checksum 0, and the CRC error is raised only with id 17 and checksum >= 1; the checksum is computed over all 7/14 frame bytes in order and is the value stored as Message.crc and as the address/parity field of DF 0, 4, 5, 16, 20, 21; index obligations of modes_checksum; no error exit of the DF reader is reachable for a complete frame of an address/parity format (every payload yields its address). Does NOT decide that the byte loop computes polynomial division, nor the 1-2 bit / 24-bit burst clause (algebra over all frames).',
     note='Static rule check, clause-limited as stated. Trusted: rustc constant evaluation and MIR, deku read contracts, the abstract interpreter.',
     ref='DESIGN.md §7 C02'),
  'C04': dict(level='other', engine='absint',
     technique='decision-list extraction from branch facts (path enumeration of a comparison-only function) compared with the NL formula; parity facts and float intervals at the result construction sites',
-    text='Decides: nl() is, for every latitude (both signs, NaN), the 59-band NL table whose breakpoints equal the formula to the table\'s 8 decimals; airborne_position builds a position only in states where the two reports have opposite parity (both orders), the returned latitude interval is within [-90, 90] and NaN-free, and its integer arithmetic cannot panic. Does NOT decide the 10 m accuracy, longitude in [-180, 180), nor "None only when the NL bands differ".',
+    text='Decides: nl() is, for every latitude (both signs, NaN), the 59-band NL table whose breakpoints equal the formula to the table\'s 8 decimals; airborne_position builds a position only in states where the two reports have opposite parity (both orders), only on paths that passed the guard NL(returned latitude) = NL(other latitude), the returned latitude interval is within [-90, 90], neither coordinate can be NaN, and its integer arithmetic cannot panic. Does NOT decide the 10 m accuracy, longitude in [-180, 180), nor the converse "None only when the NL bands differ".',
     note='Static rule check, clause-limited as stated. CPR fields are taken as 17-bit values (what the deku readers produce). Trusted: MIR, float interval arithmetic with outward rounding, libm::floor model.',
     ref='DESIGN.md §7 C04'),
+ 'C07': dict(level='other', engine='shapes',
+    technique='may/must dataflow over the MIR of every Serialize impl (derived and hand-written) composing JSON shapes per enum-variant combination; serde private-serializer acceptance tables; field provenance of keys; bit positions of source fields from the abstract interpreter',
+    text='Decides for every reachable combination of enum variants (not for sampled frames): the value is serialisable (nothing reached through #[serde(flatten)] or an internally tagged newtype variant uses an entry point FlatMapSerializer / TaggedSerializer rejects), the root is one object, no key is emitted twice, the df tag of DF 0,4,5,11,16,17,18,20,21 is the variant\'s deku id, icao24 exists and is fed by the address/parity field resp. the announced address read at bit 8, both written with one lower-hex template; TimedMessage always writes frame through hex::encode; no pretty writer is used.',
+    note='Static rule check. serde 1.0.219 semantics transcribed in checker/shapes.py (version asserted from Cargo.lock). Non-finite numbers: serde_json writes null (library fact); "decoding the hex again gives the same fields" is determinism of decoding (C01-O4). One line: serde_json::to_string never emits a newline (library fact).',
+    ref='DESIGN.md §7 C07'),
  'C13': dict(level='other', engine='absint+terms',
     technique='guarded-operation tables extracted from branch facts of the abstract interpreter; per-input-class normal forms (affine over a bit-provenance map) compared with the standard; lossy-cast obligations',
     text='Decides for every code, by classes rather than samples: decode_id13 is the Annex 10 bit permutation with result bits within 0x7777; gray2alt decodes the 500-ft counter with the reflected-Gray prefix masks and, for each of the 8 classes of the C bits and each parity of the 500-ft counter, returns 5*F + d - 13 with the standard 100-ft digit (illegal C bits only give Err, results are non-negative); AC13Field::read and decode_ac12 return 25*N - 1000 with N the code minus Q (and M) exactly for N >= 41, feed decode_id13 with the code (M re-inserted for the 12-bit field), and contain no value-changing integer cast.',
